@@ -213,4 +213,106 @@ theorem audit_sound (d : ADag) (hwf : WF d) (db : Db)
       rw [audit_ge d hwf db c k hck]
       exact ih c hck
 
+/-! ### id assignment: names of the elementary expressions -/
+
+/-- below an operator (a node that has a child) no proper ancestor is elementary -/
+theorem path_no_elementary (d : ADag) (hl : LeafWF d) (what : AKind)
+    (hel : what = .beta ∨ what = .betaFixed ∨ what = .rv ∨ what = .draws ∨ what = .var) (a b : Nat)
+    (hp : Path d (fun _ => True) a b) : Path d (fun n => n.kind ≠ what ∧ n.kind ≠ what) a b := by
+  induction hp with
+  | refl a => exact Path.refl a
+  | step a c b n hd _ hc _ ih =>
+    have hne : n.kind ≠ what := by
+      intro hk
+      have := hl a n hd (by rw [hk]; exact hel)
+      rw [this] at hc
+      cases hc
+    exact Path.step a c b n hd ⟨hne, hne⟩ hc ih
+
+/-- **the name collector reaches every elementary expression of the formula, wherever it sits** -/
+theorem names_complete (d : ADag) (hwf : WF d) (hl : LeafWF d) (what : AKind)
+    (hel : what = .beta ∨ what = .betaFixed ∨ what = .rv ∨ what = .draws ∨ what = .var) (a b : Nat)
+    (hp : Path d (fun _ => True) a b) (nb : ANode) (hb : d[b]? = some nb) (hk : nb.kind = what) :
+    nb.name ∈ names d what (a + 1) a :=
+  collect_complete d hwf what what a b (path_no_elementary d hl what hel a b hp) nb hb hk
+
+/-- and reports nothing else -/
+theorem names_sound (d : ADag) (what : AKind) (a : Nat) (name : String)
+    (h : name ∈ names d what (a + 1) a) :
+    ∃ b nb, Path d (fun _ => True) a b ∧ d[b]? = some nb ∧ nb.kind = what ∧ nb.name = name := by
+  obtain ⟨b, nb, hp, hb, hk, hn⟩ := collect_sound d what what (a + 1) a name h
+  refine ⟨b, nb, ?_, hb, hk, hn⟩
+  clear hb hk hn h
+  induction hp with
+  | refl a => exact Path.refl a
+  | step a c b n hd _ hc _ ih => exact Path.step a c b n hd trivial hc ih
+
+theorem mem_dupsOf (l : List String) (x : String) : x ∈ dupsOf l ↔ 1 < l.count x := by
+  unfold dupsOf
+  rw [List.mem_filter]
+  constructor
+  · intro h; simpa using h.2
+  · intro h
+    refine ⟨?_, by simpa using h⟩
+    exact List.count_pos_iff.mp (by omega)
+
+/-- a name present in two different segments of a list occurs in it more than once -/
+theorem count_two_segments (x : String) (p a m b s : List String) (ha : x ∈ a) (hb : x ∈ b) :
+    1 < (p ++ a ++ m ++ b ++ s).count x := by
+  have h1 : 0 < a.count x := List.count_pos_iff.mpr ha
+  have h2 : 0 < b.count x := List.count_pos_iff.mpr hb
+  simp only [List.count_append]
+  omega
+
+theorem firstNonEmpty_ne_nil (ls : List (List Fault)) (l : List Fault) (hl : l ∈ ls) (hne : l ≠ []) :
+    firstNonEmpty ls ≠ [] := by
+  induction ls with
+  | nil => cases hl
+  | cons h t ih =>
+    unfold firstNonEmpty
+    by_cases he : h.isEmpty = true
+    · simp only [he, ↓reduceIte]
+      rcases List.mem_cons.mp hl with rfl | ht
+      · exact absurd (List.isEmpty_iff.mp he) hne
+      · exact ih ht
+    · simp only [he, Bool.false_eq_true, ↓reduceIte]
+      intro h0
+      rw [h0] at he
+      exact he rfl
+
+/-- whatever the first non-empty stage reports is reported by one of the stages -/
+theorem firstNonEmpty_mem (ls : List (List Fault)) (x : Fault) (hx : x ∈ firstNonEmpty ls) :
+    ∃ l ∈ ls, x ∈ l := by
+  induction ls with
+  | nil => simp [firstNonEmpty] at hx
+  | cons h t ih =>
+    unfold firstNonEmpty at hx
+    by_cases he : h.isEmpty = true
+    · simp only [he, ↓reduceIte] at hx
+      obtain ⟨l, hl, hxl⟩ := ih hx
+      exact ⟨l, List.mem_cons_of_mem _ hl, hxl⟩
+    · simp only [he, Bool.false_eq_true, ↓reduceIte] at hx
+      exact ⟨h, List.mem_cons_self, hx⟩
+
+theorem count_le_one_of_nodup (l : List String) (h : l.Nodup) (x : String) : l.count x ≤ 1 := by
+  induction l with
+  | nil => simp
+  | cons a t ih =>
+    rw [List.nodup_cons] at h
+    rw [List.count_cons]
+    by_cases hax : a = x
+    · subst hax
+      have : t.count a = 0 := List.count_eq_zero.mpr h.1
+      simp [this]
+    · have := ih h.2
+      simpa [hax] using this
+
+theorem dupsOf_nodup (l : List String) (h : l.Nodup) : dupsOf l = [] := by
+  unfold dupsOf
+  rw [List.filter_eq_nil_iff]
+  intro x _
+  have := count_le_one_of_nodup l h x
+  simp only [gt_iff_lt, decide_eq_true_eq]
+  omega
+
 end Audit
